@@ -191,7 +191,7 @@ for ch in ("A", "W"):
                                  "source and base: <=3 segments each, <=2 characters per component; every allocation request may fail"),
        functions=[f % ch for f in SHORTEN_FUNCS], inlined=[f % ch for f in SHORTEN_FUNCS[1:]],
        stubs=["memory manager (ledger stub)"],
-       kf=["C10-authority-compared-by-host-only", "C10-empty-reference-keeps-base-query", "C10-hostless-rootedness-differs", "C10-domainroot-makes-rootless-source-absolute", "C10-empty-source-path"],
+       kf=["C10-authority-compared-by-host-only", "C10-empty-reference-keeps-base-query", "C10-hostless-rootedness-differs", "C10-domainroot-makes-rootless-source-absolute", "C10-empty-source-path", "C10-base-with-inner-dot-segments"],
        timeout_s=by_tier(1500, 7200), mem_gb=by_tier(10, 24))
 
 # ----------------------------------------------------------------------------------------------------------------
@@ -280,7 +280,8 @@ for ch in ("A", "W"):
 for ch in ("A", "W"):
     ob(id="ParseIpFourAddress.%s.H" % ch, props=["C01", "C02", "C03", "C19"], route="H", harness="c02_ip4.c", char=ch,
        group="uriParseIpFourAddress == RFC 3986 IPv4address recogniser, octet values, reads confined to the range (loop-free, all lengths)",
-       level="P", bounds="none (loop-free; text length symbolic up to 10^6)",
+       level="P", bounds=("none (loop-free; text length symbolic up to 10^6)" if ch == "A" else "none on the parser (loop-free); text blocks of 0..18 wide characters, exact size each (a wide block of symbolic size does not fit into memory; the function looks at 16 characters at most)"),
+       defines=({} if ch == "A" else {"V_NMAX": 18, "V_CONSTBLOCK": 1}),
        functions=["uriParseIpFourAddress" + ch, "uriParseDecOctet" + ch, "uriParseDecOctetOne" + ch, "uriParseDecOctetTwo" + ch,
                   "uriParseDecOctetThree" + ch, "uriParseDecOctetFour" + ch, "uriPushToStack", "uriStackToOctet"],
        inlined=["all of the above (verified in place)"], stubs=[], timeout_s=600, mem_gb=16)
